@@ -23,9 +23,19 @@ type Op struct {
 	Sub   []Op    `json:"sub,omitempty"`
 	BSync bool    `json:"bsync,omitempty"`
 	Cfg   *Config `json:"cfg,omitempty"`
+	Forge uint8   `json:"forge,omitempty"` // != 0: last four value bytes make the chunk CRC 0 / ~0 / 1 / 1<<31
 }
 
-func (o Op) Value() []byte { return FillValue(o.VSeed, o.VLen) }
+func (o Op) Value() []byte {
+	v := FillValue(o.VSeed, o.VLen)
+	if o.Forge != 0 {
+		// the chunk checksum of this record is forged to a remarkable value
+		if f, ok := vfmt.ForgeValue(o.Key, v, []uint32{0, 0, 0xFFFFFFFF, 1, 0x80000000}[o.Forge%5]); ok {
+			return f
+		}
+	}
+	return v
+}
 
 func (o Op) String() string {
 	switch o.Kind {
@@ -827,10 +837,11 @@ func (s *Session) execBatch(op Op) bool {
 // Generator
 
 type Gen struct {
-	R      *Rng
-	Keys   [][]byte
-	Cfg    Config
-	MaxVal int
+	NoForge bool // no forged chunk checksums
+	R       *Rng
+	Keys    [][]byte
+	Cfg     Config
+	MaxVal  int
 	// EndOff reports the observed end offset of the active data file (or -1).
 	EndOff func() int64
 	// Weights
@@ -965,6 +976,11 @@ func (g *Gen) Put() Op {
 	op := Op{Kind: "put", Key: k, VLen: g.VLen(len(k)), VSeed: g.R.U64() | 1}
 	if g.R.Chance(1, 25) {
 		op.VSeed = 0 // all-zero value
+	}
+	if g.R.Chance(1, 30) && !g.NoForge {
+		// a small record whose stored chunk checksum is 0x00000000 (or another remarkable
+		// value): valid content that looks like "nothing there" to a careless reader
+		op.VLen, op.Forge = g.R.Range(4, 300), uint8(g.R.Range(1, 5))
 	}
 	return op
 }
